@@ -22,9 +22,11 @@ mod ops_edwards;
 mod ops_misc;
 mod ops_vec;
 mod ops_more;
+#[cfg(feature = "zeroize")]
 mod ops_mem;
 mod ops_ct;
 
+#[cfg(feature = "zeroize")]
 #[global_allocator]
 static GLOBAL: ops_mem::LogAlloc = ops_mem::LogAlloc;
 
@@ -72,6 +74,7 @@ fn dispatch(op: &str, e: &Value, ctx: &mut Ctx) -> Result<Value, String> {
         "ed" => ops_edwards::run(op, e, ctx),
         "vec" | "const" | "chk" => ops_vec::run(op, e, ctx),
         "tot" | "serde" | "ff" | "grp" => ops_more::run(op, e, ctx),
+        #[cfg(feature = "zeroize")]
         "mem" => ops_mem::run(op, e, ctx),
         "ct" => ops_ct::run(op, e, ctx),
         _ => ops_misc::run(op, e, ctx),
